@@ -423,6 +423,49 @@ Proof. intros A f l H v Hin. apply in_map_iff in Hin. destruct Hin as [a [<- _]]
 Lemma per_emit_opt : forall {A} (f : A -> wr) o, (forall a, shift4 (f a)) -> forall v, In v (emit_opt f o) -> periodic v.
 Proof. intros A f [a|] H v Hin; [|destruct Hin]. destruct Hin as [<-|[]]. apply shift4_periodic, H. Qed.
 
+(* what the table emits under the pid of a row, computed *)
+Ltac compute_emitted :=
+  cbn [emitted find w_pid w_emit Z.eqb Pos.eqb
+    topic_wtable dwriter_wtable dreader_wtable participant_wtable
+    PID_PARTICIPANT_LEASE_DURATION PID_TIME_BASED_FILTER PID_TOPIC_NAME PID_OWNERSHIP_STRENGTH PID_TYPE_NAME
+    PID_DOMAIN_ID PID_PROTOCOL_VERSION PID_VENDORID PID_RELIABILITY PID_LIVELINESS PID_DURABILITY PID_OWNERSHIP
+    PID_PRESENTATION PID_DEADLINE PID_DESTINATION_ORDER PID_LATENCY_BUDGET PID_PARTITION PID_LIFESPAN PID_USER_DATA
+    PID_GROUP_DATA PID_TOPIC_DATA PID_UNICAST_LOCATOR PID_MULTICAST_LOCATOR PID_DEFAULT_UNICAST_LOCATOR
+    PID_METATRAFFIC_UNICAST_LOCATOR PID_METATRAFFIC_MULTICAST_LOCATOR PID_PARTICIPANT_MANUAL_LIVELINESS_COUNT
+    PID_HISTORY PID_RESOURCE_LIMITS PID_EXPECTS_INLINE_QOS PID_DEFAULT_MULTICAST_LOCATOR PID_TRANSPORT_PRIORITY
+    PID_PARTICIPANT_GUID PID_GROUP_ENTITYID PID_BUILTIN_ENDPOINT_SET PID_ENDPOINT_GUID PID_DATA_REPRESENTATION
+    PID_TYPE_CONSISTENCY_ENFORCEMENT PID_TYPE_INFORMATION PID_BUILTIN_ENDPOINT_QOS PID_DOMAIN_TAG].
+Ltac solve_skip :=
+  first [ apply zeqb_eq | apply durkind_eqb_eq | apply liv_eqb_eq | apply rel_eqb_eq | apply histkind_eqb_eq
+        | apply res_eqb_eq | apply bytes_eqb_eq | apply pres_eqb_eq | apply tce_eqb_eq | apply list_eqb_nil
+        | apply bool_eqb_false | apply negb_true_false ].
+Ltac solve_codec :=
+  first [ apply xd_key_ok | apply xd_string_ok | apply xd_octets_ok | apply xd_i32_ok
+        | apply xd_enum_ok | apply xd_durkind_ok | apply xd_pres_ok | apply xd_liv_ok | apply xd_rel_ok
+        | apply xd_hist_ok | apply xd_res_ok | apply xd_partition_ok | apply xd_datarep_ok | apply xd_tce_ok
+        | apply cd_entity_id_ok | apply cd_bytes2_ok | apply cd_duration_ok | apply cd_i32_ok | apply cd_u32_ok
+        | apply cd_bool_ok | apply cd_string_ok ];
+  try assumption; try (eapply in_i32_small; [eassumption|lia|lia]).
+(* one row: pick the lemma by the shape of the reader and of the emission *)
+Ltac solve_row_generic :=
+  lazymatch goal with
+  | |- reader_ok (map _ (always _)) (RSeek (k_optional_x _ _)) _ => eapply rd_optx_always; [reflexivity|solve_codec]
+  | |- reader_ok (map _ (unless _ _)) (RSeek (k_optional_x _ _)) _ => eapply rd_optx_unless; [reflexivity|solve_skip|solve_codec]
+  | |- reader_ok (map _ (always _)) (RSeek (k_non_optional_x _)) _ => eapply rd_nonoptx_always; [reflexivity|solve_codec]
+  | |- reader_ok (map _ (always _)) (RSeek (k_optional _ _)) _ => eapply rd_optc_always; [reflexivity|solve_codec]
+  | |- reader_ok (map _ (unless _ _)) (RSeek (k_optional _ _)) _ => eapply rd_optc_unless; [reflexivity|solve_skip|solve_codec]
+  | |- reader_ok (map _ (always _)) (RSeek (k_non_optional _)) _ => eapply rd_nonoptc_always; [reflexivity|solve_codec]
+  | |- reader_ok (map _ (map _ _)) (RList _ _ _) _ =>
+      eapply rd_list; [reflexivity|eapply Forall_impl; [|eassumption]; intros; apply cd_locator_ok; assumption]
+  | |- reader_ok (map _ (emit_opt _ _)) (RSeek (k_ok (k_non_optional _))) _ =>
+      eapply rd_ok_opt; [reflexivity|
+        let a := fresh "a" in let E := fresh "E" in intros a E; apply cd_i32_ok;
+        match goal with H : match ?o with Some _ => _ | None => True end |- _ => rewrite E in H; exact H end]
+  end.
+Ltac solve_per_generic :=
+  first [ apply per_always | apply per_unless | apply per_map | apply per_emit_opt ]; auto with sh4.
+Ltac split_wf H := repeat match type of H with _ /\ _ => let H' := fresh "W" in destruct H as [H' H] end.
+
 Section WithTypeInformation.
 Variable TI : Type.
 Variable ti_w : TI -> wr.
@@ -445,13 +488,16 @@ Proof.
   intros o vals E. pose proof (rd_ti_strict o vals E) as H. cbn [reader_ok] in *. unfold k_unwrap_or_none. rewrite H. reflexivity.
 Qed.
 
-Ltac solve_per :=
-  first [ apply per_always | apply per_unless | apply per_map | apply per_emit_opt | apply per_emit_ti ];
-  auto with sh4.
-Ltac solve_skip :=
-  first [ apply zeqb_eq | apply durkind_eqb_eq | apply liv_eqb_eq | apply rel_eqb_eq | apply histkind_eqb_eq
-        | apply res_eqb_eq | apply bytes_eqb_eq | apply pres_eqb_eq | apply tce_eqb_eq | apply list_eqb_nil
-        | apply bool_eqb_false | apply negb_true_false ].
+Ltac solve_per := first [ apply per_emit_ti | solve_per_generic ].
+Ltac solve_row :=
+  lazymatch goal with
+  | |- reader_ok (map _ (emit_ti _ _ _)) (RSeek (k_optional_x2 _)) _ => eapply rd_ti_strict; reflexivity
+  | |- reader_ok (map _ (emit_ti _ _ _)) (RSeek (k_unwrap_or_none _)) _ => eapply rd_ti_lenient; reflexivity
+  | |- _ => solve_row_generic
+  end.
+Ltac solve_rows :=
+  repeat first [ apply rows_nil
+               | apply rows_cons; [discriminate|compute_emitted; solve_row|] ].
 
 (* ---------------------------------------------------------------- topic *)
 Lemma topic_table_ok : forall r, tbl_fits (topic_wtable TI ti_w) r -> table_ok (topic_wtable TI ti_w) r.
@@ -464,36 +510,6 @@ Proof.
     intros row v Hr. exact (proj1 (Forall_forall _ _) F row Hr v).
   - exact Hf.
 Qed.
-
-(* one row: pick the lemma by the shape of the reader, compute what the table emits under the
-   pid, discharge codec side conditions from the well-formedness hypotheses *)
-Ltac solve_codec :=
-  first [ apply xd_key_ok | apply xd_string_ok | apply xd_octets_ok | apply xd_i32_ok
-        | apply xd_enum_ok | apply xd_durkind_ok | apply xd_pres_ok | apply xd_liv_ok | apply xd_rel_ok
-        | apply xd_hist_ok | apply xd_res_ok | apply xd_partition_ok | apply xd_datarep_ok | apply xd_tce_ok
-        | apply cd_entity_id_ok | apply cd_bytes2_ok | apply cd_duration_ok | apply cd_i32_ok | apply cd_u32_ok
-        | apply cd_bool_ok | apply cd_string_ok ];
-  try assumption; try (eapply in_i32_small; [eassumption|lia|lia]).
-Ltac solve_row :=
-  first [ eapply rd_optx_always; [reflexivity|solve_codec]
-        | eapply rd_optx_unless; [reflexivity|solve_skip|solve_codec]
-        | eapply rd_nonoptx_always; [reflexivity|solve_codec]
-        | eapply rd_optc_always; [reflexivity|solve_codec]
-        | eapply rd_optc_unless; [reflexivity|solve_skip|solve_codec]
-        | eapply rd_nonoptc_always; [reflexivity|solve_codec]
-        | eapply rd_ti_strict; reflexivity
-        | eapply rd_ti_lenient; reflexivity
-        | eapply rd_list; [reflexivity|eapply Forall_impl; [|eassumption]; intros; apply cd_locator_ok; assumption] ].
-Ltac solve_rows :=
-  cbn [rows_read_back r_pid r_reader fst snd];
-  repeat lazymatch goal with
-  | |- True => exact I
-  | |- _ <> _ /\ _ => split; [discriminate|]
-  | |- reader_ok _ _ _ /\ _ => split; [solve_row|]
-  end.
-
-Ltac split_wf H := repeat match type of H with _ /\ _ => let H' := fresh "W" in destruct H as [H' H] end.
-
 Lemma topic_rows : forall r, wf_topic TI r -> res_limited_max (t_resource_limits TI r) = false ->
   rows_read_back (topic_wtable TI ti_w) r (topic_rtable TI ti_dec) (topic_unbuild TI ti_dec r).
 Proof.
@@ -563,35 +579,9 @@ Qed.
 End WithTypeInformation.
 
 (* ---------------------------------------------------------------- participant *)
-Ltac solve_codec :=
-  first [ apply xd_key_ok | apply xd_string_ok | apply xd_octets_ok | apply xd_i32_ok
-        | apply cd_entity_id_ok | apply cd_bytes2_ok | apply cd_duration_ok | apply cd_i32_ok | apply cd_u32_ok
-        | apply cd_bool_ok | apply cd_string_ok ];
-  try assumption.
-Ltac solve_skip :=
-  first [ apply zeqb_eq | apply bytes_eqb_eq | apply bool_eqb_false | apply negb_true_false ].
-Ltac solve_row :=
-  first [ eapply rd_optx_always; [reflexivity|solve_codec]
-        | eapply rd_optx_unless; [reflexivity|solve_skip|solve_codec]
-        | eapply rd_nonoptx_always; [reflexivity|solve_codec]
-        | eapply rd_optc_always; [reflexivity|solve_codec]
-        | eapply rd_optc_unless; [reflexivity|solve_skip|solve_codec]
-        | eapply rd_nonoptc_always; [reflexivity|solve_codec]
-        | eapply rd_list; [reflexivity|eapply Forall_impl; [|eassumption]; intros; apply cd_locator_ok; assumption]
-        | eapply rd_ok_opt; [reflexivity|
-            let a := fresh "a" in let E := fresh "E" in intros a E; apply cd_i32_ok;
-            match goal with H : match ?o with Some _ => _ | None => True end |- _ => rewrite E in H; exact H end] ].
-Ltac solve_rows :=
-  cbn [rows_read_back r_pid r_reader fst snd];
-  repeat lazymatch goal with
-  | |- True => exact I
-  | |- _ <> _ /\ _ => split; [discriminate|]
-  | |- reader_ok _ _ _ /\ _ => split; [solve_row|]
-  end.
-Ltac solve_per :=
-  first [ apply per_always | apply per_unless | apply per_map | apply per_emit_opt ];
-  auto with sh4.
-Ltac split_wf H := repeat match type of H with _ /\ _ => let H' := fresh "W" in destruct H as [H' H] end.
+Ltac solve_rows_p :=
+  repeat first [ apply rows_nil
+               | apply rows_cons; [discriminate|compute_emitted; solve_row_generic|] ].
 
 Lemma participant_table_ok : forall r, tbl_fits participant_wtable r -> table_ok participant_wtable r.
 Proof.
@@ -599,7 +589,7 @@ Proof.
   - apply nodupb_NoDup. vm_compute. reflexivity.
   - apply pids_okb_ok. vm_compute. reflexivity.
   - assert (F : Forall (fun row => forall v, In v (w_emit row r) -> periodic v) participant_wtable).
-    { unfold participant_wtable. repeat (constructor; [cbn [w_emit]; solve_per|]). constructor. }
+    { unfold participant_wtable. repeat (constructor; [cbn [w_emit]; solve_per_generic|]). constructor. }
     intros row v Hr. exact (proj1 (Forall_forall _ _) F row Hr v).
   - exact Hf.
 Qed.
@@ -607,7 +597,7 @@ Lemma participant_rows : forall r, wf_participant r ->
   rows_read_back participant_wtable r participant_rtable (participant_unbuild r).
 Proof.
   intros r H. unfold wf_participant in H. split_wf H.
-  unfold participant_rtable, participant_unbuild. solve_rows.
+  unfold participant_rtable, participant_unbuild. solve_rows_p.
 Qed.
 Theorem participant_roundtrip : forall r,
   wf_participant r -> tbl_fits participant_wtable r ->
